@@ -35,7 +35,7 @@ use std::sync::Arc;
 
 const F: &str = "\u{266D}";
 
-fn doc(step: usize) -> serde_json::Map<String, Value> {
+fn doc(step: usize, uniq: bool) -> serde_json::Map<String, Value> {
     let k = |s: &str| format!("{}{}", s, F);
     let mut m = serde_json::Map::new();
     m.insert("title".into(), json!("t1"));
@@ -45,7 +45,8 @@ fn doc(step: usize) -> serde_json::Map<String, Value> {
         _ => (2, 2, 2),
     };
     m.insert(k("a"), json!({"_id": "o1", "v": v1}));
-    m.insert(k("b"), json!({"_id": "o2", "v": v2}));
+    // uniq: no value (digest) occurs in two packs; otherwise o1 and o2 take the same value {"v":2} concurrently
+    m.insert(k("b"), if uniq { json!({"_id": "o2", "w": v2}) } else { json!({"_id": "o2", "v": v2}) });
     m.insert(k("c"), json!({"_id": "o3", "v": v3, "s": "x}y"}));
     let list = match step {
         1 => json!([{"_id": "i1", "n": 1}, {"_id": "i2", "n": 2}]),
@@ -125,19 +126,19 @@ fn one(anchors: Option<BTreeSet<DeltaId>>, what: &str) -> Result<DeltaId, String
 }
 
 /// builds the source history and collects A's item files
-pub fn build(long: bool) -> Result<Hist, String> {
+pub fn build(long: bool, uniq: bool) -> Result<Hist, String> {
     let (ad_a, ad_b) = (orch::mem(), orch::mem());
     let a = orch::open(&ad_a)?;
     let mut a = a;
     let mut b = orch::open(&ad_b)?;
     let mut named: Vec<(String, DeltaId)> = vec![];
-    orch::ge("A.update(doc1)", || a.update(doc(1)))?;
+    orch::ge("A.update(doc1)", || a.update(doc(1, uniq)))?;
     named.push(("1".into(), one(orch::ge("A.commit d1", || a.commit(None))?, "d1")?));
     orch::ge("B.meld(A)", || b.meld(&a))?;
     orch::ge("B.refresh", || b.refresh())?;
-    orch::ge("A.update(doc2)", || a.update(doc(2)))?;
+    orch::ge("A.update(doc2)", || a.update(doc(2, uniq)))?;
     named.push(("2a".into(), one(orch::ge("A.commit d2a", || a.commit(None))?, "d2a")?));
-    orch::ge("B.update_object(o2)", || b.update_object("o2", orch::obj(json!({"v": 2}))))?;
+    orch::ge("B.update_object(o2)", || b.update_object("o2", orch::obj(if uniq { json!({"w": 2}) } else { json!({"v": 2}) })))?;
     named.push(("2b".into(), one(orch::ge("B.commit d2b", || b.commit(Some(orch::obj(json!({"author": "B"})))))?, "d2b")?));
     orch::ge("A.meld(B)", || a.meld(&b))?;
     orch::ge("A.refresh", || a.refresh())?;
@@ -146,7 +147,7 @@ pub fn build(long: bool) -> Result<Hist, String> {
         // never commit with a conflict around (the array case hangs on this version); this history has none by construction
         return Err(format!("source history: unexpected conflicts after meld+refresh: {:?}", conflicts));
     }
-    orch::ge("A.update(doc3)", || a.update(doc(3)))?;
+    orch::ge("A.update(doc3)", || a.update(doc(3, uniq)))?;
     named.push(("3".into(), one(orch::ge("A.commit d3", || a.commit(None))?, "d3")?));
     if long {
         orch::ge("A.delete_object(o4)", || a.delete_object("o4"))?;
@@ -202,14 +203,24 @@ pub fn build(long: bool) -> Result<Hist, String> {
     let labels: Vec<String> = perm.iter().map(|i| labels[*i].clone()).collect();
     let bytes: Vec<Vec<u8>> = perm.iter().map(|i| bytes[*i].clone()).collect();
     let keys: Vec<String> = perm.iter().map(|i| keys[*i].clone()).collect();
-    Ok(Hist { name: if long { "long".into() } else { "base".into() }, labels, keys, bytes, blocks })
+    Ok(Hist { name: if uniq { "damage".into() } else if long { "long".into() } else { "base".into() }, labels, keys, bytes, blocks })
 }
 
 struct Expect {
     fresh: Value,
     reference: Value,
+    /// get_value(o, None) of every object of the reference replica
+    values: Value,
     complete: BTreeSet<String>,
     delivered_blocks: BTreeSet<String>,
+}
+
+fn values_of(m: &Melda) -> Value {
+    let mut out = serde_json::Map::new();
+    for o in orch::g(|| m.get_all_objects()).unwrap_or_default() {
+        out.insert(o.clone(), orch::res(orch::g(|| m.get_value(&o, None).map(Value::Object))));
+    }
+    Value::Object(out)
 }
 
 fn opened_state(ad: &Dyn) -> Value {
@@ -227,12 +238,16 @@ fn expect<'a>(h: &Hist, memo: &'a mut HashMap<u32, Expect>, mask: u32) -> Result
         let comp_files: BTreeSet<usize> = comp.iter().map(|bi| h.blocks[*bi].file).collect();
         let is_block_file = |f: usize| h.blocks.iter().any(|b| b.file == f);
         let ref_files = (0..h.n()).filter(|i| mask & (1 << i) != 0 && (comp_files.contains(i) || !is_block_file(*i)));
-        let reference = opened_state(&h.adapter_with(ref_files)?);
+        let (reference, values) = match orch::open(&h.adapter_with(ref_files)?) {
+            Ok(m) => (orch::state(&m), values_of(&m)),
+            Err(e) => (json!({ "open": e }), json!({})),
+        };
         memo.insert(
             mask,
             Expect {
                 fresh,
                 reference,
+                values,
                 complete: comp.iter().map(|bi| h.blocks[*bi].id.clone()).collect(),
                 delivered_blocks: h.blocks.iter().filter(|b| mask & (1 << b.file) != 0).map(|b| b.id.clone()).collect(),
             },
@@ -402,7 +417,7 @@ fn listing_check(h: &Hist, mask: u32, full: bool, out: &Out) {
 
 fn work(thorough: bool, seed: u64, out: &Out) {
     let mut rng = Rng::new(seed);
-    let base = match build(false) {
+    let base = match build(false, false) {
         Ok(h) => h,
         Err(e) => {
             out.case("history:base", true);
@@ -450,7 +465,7 @@ fn work(thorough: bool, seed: u64, out: &Out) {
             listing_check(&base, mask, false, out);
         }
         // the history extended by a block without pack
-        match build(true) {
+        match build(true, false) {
             Err(e) => {
                 out.case("history:long", true);
                 out.fail("history", "history:long", json!({"history": "long"}), &e);
@@ -506,7 +521,7 @@ fn work(thorough: bool, seed: u64, out: &Out) {
     for mask in 0..(1u32 << n) {
         listing_check(&base, mask, mask == (1u32 << n) - 1, out);
     }
-    match build(true) {
+    match build(true, false) {
         Err(e) => {
             out.case("history:long", true);
             out.fail("history", "history:long", json!({"history": "long"}), &e);
